@@ -3,7 +3,11 @@ package main
 import (
 	"fmt"
 
-	"circlsim/refmodel/hpkeref"
+	"circlsim/refmodel/asconref"
+	"circlsim/refmodel/h2c"
 )
 
-func main() { fmt.Println(hpkeref.Selftest("/verif/fixtures/rfc9180.json")) }
+func main() {
+	fmt.Println(h2c.Selftest("/verif/fixtures/rfc9380"))
+	fmt.Println(asconref.Selftest("/verif/fixtures/ascon"))
+}
